@@ -72,27 +72,6 @@ def _cylseg_el3_valueerror():
     return (not bool(np.all(np.isfinite(h)))), {"reproduce": code, "outcome": repr(h)}
 
 
-def _near_vertex(cls, field):
-    """unit right triangle / unit tetrahedron, observer 2.5e-9 beside the vertex (1,0,0), perpendicular to the edge from the origin"""
-    def run():
-        import magpylib as magpy
-        pol = (0.3, -0.7, 0.5)
-        if cls == "Triangle":
-            src = magpy.misc.Triangle(vertices=[(0, 0, 0), (1, 0, 0), (0, 1, 0)], polarization=pol)
-        elif cls == "Tetrahedron":
-            src = magpy.magnet.Tetrahedron(vertices=[(0, 0, 0), (1, 0, 0), (0, 1, 0), (0, 0, 1)], polarization=pol)
-        else:
-            with warnings.catch_warnings():
-                warnings.simplefilter("ignore")
-                src = magpy.magnet.TriangularMesh.from_ConvexHull(points=[(0, 0, 0), (1, 0, 0), (0, 1, 0), (0, 0, 1)], polarization=pol)
-        obs = [1.0, 2.5e-9, 0.0]
-        with warnings.catch_warnings():
-            warnings.simplefilter("ignore")
-            v = getattr(magpy, "get" + field)(src, np.array(obs))
-        return (not bool(np.all(np.isfinite(v)))), {"class": cls, "observer": obs, "field": field, "value": np.asarray(v).tolist()}
-    return run
-
-
 def _dipole(magpy):
     return magpy.misc.Dipole(moment=(0.3, -0.2, 0.5))
 
@@ -205,11 +184,10 @@ REPLAYS = {
            for variant in ("plain", "tiny", "huge", "zero-size") for f in "BH"},
         **{f"non-finite:Sphere:zero-size:{f}": _nonfinite(_sphere0, [[5e-324, 0.0, 0.0], [1e-160, 1e-160, 1e-160]], f) for f in "BH"},
         **{f"non-finite:Cuboid:near-edge:{f}": _cuboid_near_edge(f) for f in "BH"},
-        **{f"non-finite:Triangle:zero-size:{f}": _nonfinite(lambda magpy: magpy.misc.Triangle(vertices=[(0, 0, 0), (1, 0, 0), (0.25, 0, 0)], polarization=(0.1, 0.2, 0.3)),
-                                                            [[0.3, 0.4, 0.5]], f) for f in "BH"},
         "hang-or-crash:Cylinder:denormal-height": _cylinder_denormal_hang,
         "hang-or-crash:CylinderSegment:el3-nan-to-int": _cylseg_el3_valueerror,
-        **{f"non-finite:{cls}:near-vertex:{f}": _near_vertex(cls, f) for cls in ("Triangle", "Tetrahedron", "TriangularMesh") for f in "BH"},
+        # non-finite:{Triangle,Tetrahedron,TriangularMesh}:near-vertex:{B,H} and non-finite:Triangle:zero-size:{B,H} are repaired
+        # (known_findings.json, `fixed`); their inputs are regression cases of oracles/c15.py with finiteness AND accuracy assertions
     },
     "C16": {"status:octahedron-equator-in-face:selfintersection-not-detected": _c16_selfintersecting("octahedron-equator-in-face")},
     "C20": {**{f"style:sensor:{k}:object-default-shadows-family": _c20_sensor_leaf(k) for k in ("pixel_size", "arrows_x_show", "arrows_y_show", "arrows_z_show")},
